@@ -29,6 +29,8 @@ pub struct Spec {
     /// the consumer of an ended stream immediately subscribes again (with every other id in use it gets the same id back,
     /// possibly while the end request is still completing): the new stream was never targeted and must not end
     pub recreate: bool,
+    /// streams created first (lowest ids) and dropped again before the run without ever having been told to end
+    pub predropped: usize,
 }
 
 /// runs a future of the crate on a private current-thread tokio runtime whose clock is paused (time advances when idle)
@@ -104,7 +106,9 @@ where C: FullDuplexUniChannel<ItemType = u32> + Send + Sync + 'static,
       C::DerivedItemType: Val + Send + 'static {
     let chan: Arc<C> = C::new("c07");
     let mut bodies: Vec<mcx::Body> = Vec::new();
+    let gone: Vec<_> = (0..spec.predropped).map(|_| chan.create_stream().0).collect();
     let streams: Vec<_> = (0..spec.streams).map(|_| chan.create_stream().0).collect();
+    drop(gone);
     body_common!(chan, spec, bodies, uni_send, streams, create_stream);
     let sp = spec.clone();
     Instance { bodies, check: Box::new(move |out| {
@@ -128,7 +132,9 @@ where C: FullDuplexMultiChannel<ItemType = u32> + Send + Sync + 'static,
     let chan: Arc<C> = C::new(name.clone());
     if spec.multi == Some(MultiKind::ML) { cleanup_mmap(&name) }
     let mut bodies: Vec<mcx::Body> = Vec::new();
+    let gone: Vec<_> = (0..spec.predropped).map(|_| chan.create_stream_for_new_events().0).collect();
     let streams: Vec<_> = (0..spec.streams).map(|_| chan.create_stream_for_new_events().0).collect();
+    drop(gone);
     body_common!(chan, spec, bodies, multi_send, streams, create_stream_for_new_events);
     let sp = spec.clone();
     Instance { bodies, check: Box::new(move |out| {
@@ -241,13 +247,33 @@ pub fn scenarios(tier: Tier) -> Vec<ScenarioDef> {
             for events in 0..=2usize {
                 if tier == Tier::Quick && events == 2 && streams == 2 { continue }
                 if tier == Tier::Quick && multi == Some(MultiKind::ML) && events > 1 { continue }
-                let spec = Spec { uni, multi, b: 8, m: 2, streams, action, events, late, recreate: false };
+                let spec = Spec { uni, multi, b: 8, m: 2, streams, action, events, late, recreate: false, predropped: 0 };
                 let rung = format!("E{events}");
                 let threads = 1 + (events > 0) as usize + streams;
                 let bound = match tier { Tier::Quick => if threads <= 2 { 2 } else { 1 }, Tier::Thorough => if threads <= 2 { 3 } else if threads == 3 { 3 } else { 2 } };
                 let sp = spec.clone();
                 defs.push(ScenarioDef { prop: "C07", family: family.clone(), rung, rung_idx: events, max_bound: bound,
                     make: Arc::new(move || { let sp = sp.clone(); match (sp.uni, sp.multi) {
+                        (Some(k), _) => crate::dispatch_uni!(k, sp.b, sp.m, make_uni(sp)),
+                        (_, Some(k)) => crate::dispatch_multi!(k, sp.b, sp.m, make_multi(sp)),
+                        _ => unreachable!() } }) });
+            }
+        }
+    }
+    // streams with the lowest ids went away earlier without ever having been told to end; cancel_all_streams must still reach the live ones
+    let mut kinds: Vec<(Option<UniKind>, Option<MultiKind>)> = UniKind::ALL.iter().map(|k| (Some(*k), None)).collect();
+    kinds.extend(MultiKind::ALL.iter().map(|k| (None, Some(*k))));
+    for (uni, multi) in kinds {
+        if tier == Tier::Quick && multi == Some(MultiKind::ML) { continue }
+        let kname = match (uni, multi) { (Some(k), _) => format!("uni-{}", k.name()), (_, Some(k)) => format!("multi-{}", k.name()), _ => unreachable!() };
+        for (m, predropped, streams) in [(2usize, 1usize, 1usize), (4, 2, 2)] {
+            for events in 0..=1usize {
+                if tier == Tier::Quick && streams == 2 && events == 1 { continue }
+                let spec = Spec { uni, multi, b: 8, m, streams, action: Action::CancelAll, events, late: false, recreate: false, predropped };
+                let threads = 1 + (events > 0) as usize + streams;
+                let bound = match tier { Tier::Quick => if threads <= 2 { 2 } else { 1 }, Tier::Thorough => if threads <= 3 { 3 } else { 2 } };
+                defs.push(ScenarioDef { prop: "C07", family: format!("{kname}/cancel_all/M{m}-S{streams}-after-{predropped}-dropped"), rung: format!("E{events}"), rung_idx: events, max_bound: bound,
+                    make: Arc::new(move || { let sp = spec.clone(); match (sp.uni, sp.multi) {
                         (Some(k), _) => crate::dispatch_uni!(k, sp.b, sp.m, make_uni(sp)),
                         (_, Some(k)) => crate::dispatch_multi!(k, sp.b, sp.m, make_multi(sp)),
                         _ => unreachable!() } }) });
@@ -261,7 +287,7 @@ pub fn scenarios(tier: Tier) -> Vec<ScenarioDef> {
         if tier == Tier::Quick && multi == Some(MultiKind::ML) { continue }
         let kname = match (uni, multi) { (Some(k), _) => format!("uni-{}", k.name()), (_, Some(k)) => format!("multi-{}", k.name()), _ => unreachable!() };
         for events in 0..=1usize {
-            let spec = Spec { uni, multi, b: 8, m: 1, streams: 1, action: Action::EndOne(0), events, late: false, recreate: true };
+            let spec = Spec { uni, multi, b: 8, m: 1, streams: 1, action: Action::EndOne(0), events, late: false, recreate: true, predropped: 0 };
             let bound = match tier { Tier::Quick => 2, Tier::Thorough => 3 };
             defs.push(ScenarioDef { prop: "C07", family: format!("{kname}/end_stream0/M1-S1-recreate"), rung: format!("E{events}"), rung_idx: events, max_bound: bound,
                 make: Arc::new(move || { let sp = spec.clone(); match (sp.uni, sp.multi) {
